@@ -524,3 +524,63 @@ def k_lunar_hour_next(eng):
 
     r = run_kernel(eng, "11.i/B/lunar-hour-next", "11.i", "every hour 0..23, minute, second, |n| <= 10^8", build, None, replay)
     return _finish(r, holder["ctx"]) if "ctx" in holder else r
+
+
+def k_lunar_month_days(eng):
+    """LunarMonth::get_days: exactly the days 1..day count of this month (year, month-with-leap), in order"""
+    from .mir import VecV
+    holder = {}
+
+    def build(eng):
+        fn = M.find_fn(eng.fns, "get_days", "&LunarMonth")
+        ctx = _ctx(eng, {})
+        ctx.max_unroll = 33
+        holder.update(ctx=ctx)
+        rec = Rec(ctx, "self", "LunarMonth")
+        count = ctx.fresh_value("day_count", "usize")
+        year = ctx.fresh_value("year", "isize")
+        mw = ctx.fresh_value("month_with_leap", "isize")
+        model = ctx.model
+        base = model.call
+        made = {}
+
+        def call(c, fr, callee, args, path):
+            a = [model.deref(c, x) for x in args]
+            if a and a[0] is rec:
+                r = {"LunarMonth::get_day_count": count, "LunarMonth::get_year": year, "LunarMonth::get_month_with_leap": mw}.get(callee)
+                if r is not None:
+                    return True, r
+            if callee in ("LunarDay::from_ymd",) and len(a) == 3 and all(isinstance(x, T) for x in a):
+                r = Rec(c, "day", "LunarDay")
+                made[id(r)] = a
+                return True, r
+            return base(c, fr, callee, args, path)
+        model.call = call
+        paths = ctx.run(fn, [("refrec", rec)])
+        pre = ["(<= 29 %s 30)" % count.s, "(<= (- 1) %s 9999)" % year.s, "(<= (- 12) %s 12)" % mw.s]
+
+        def shape(p):
+            if getattr(p, "cut", False):
+                return None
+            if not isinstance(p.ret, VecV):
+                return "result is not the vector that was filled"
+            return None if all(id(x) in made for x in p.ret.items) else "an element is not built by LunarDay::from_ymd"
+
+        def posts(p):
+            if getattr(p, "cut", False):
+                return []
+            out = [("length", "(= %d %s)" % (len(p.ret.items), count.s))]
+            for k, x in enumerate(p.ret.items):
+                y, m, d = made[id(x)]
+                out.append(("element-%d" % k, "(and (= %s %s) (= %s %s) (= %s %d))" % (y.s, year.s, m.s, mw.s, d.s, k + 1)))
+            return out
+        return ctx, paths, pre, posts, shape
+
+    def replay(eng, model):
+        nat = eng.native("lunar_lists_scan")
+        if nat in ("NONE", "PANIC", "UNKNOWN", ""):
+            return nat == "PANIC", "native scan: " + (nat or "no output")
+        return True, "a lunar list accessor does not list exactly its parts: " + nat
+
+    r = run_kernel(eng, "13.d/B/lunar-month-days", "13.d", "every month identity, day count 29..30; listing loop unrolled 33 times with the bound proved", build, None, replay)
+    return _finish(r, holder["ctx"]) if "ctx" in holder else r
